@@ -72,3 +72,10 @@ Theorem C09_fragment_round_trip_needs_side_conditions :
    render_md (mkMopts false) None (fst (fst (parse_lines cfg_markdown (text_of (spell ws))))) = $"```" ++ [10; 10] ++ $"```" ++ [10]).
 Proof. exact round_trip_needs_rt_ok. Qed.
 Print Assumptions C09_fragment_round_trip_needs_side_conditions.
+
+(* ... and with the text given as one string, as MarkdownRenderer().render(Document(text)) takes it *)
+From Mistletoe Require Import Proofs.FragmentHtml.
+Theorem C09_fragment_round_trip_text : forall t, wf_b t = true -> rt_ok t = true -> one_string_ok t = true ->
+  render_md (mkMopts false) None (fst (fst (parse_document cfg_markdown (concat (text_of (spell t)))))) = concat (text_of (spell t)).
+Proof. exact fragment_round_trip_text. Qed.
+Print Assumptions C09_fragment_round_trip_text.
